@@ -54,12 +54,6 @@ func (r *rle) flush() {
 }
 func (r *rle) String() string { r.flush(); return r.sb.String() }
 
-func b2i(b bool) int {
-	if b {
-		return 1
-	}
-	return 0
-}
 
 func ppuWrite(reg int, v uint8) {
 	switch reg {
